@@ -14,8 +14,10 @@ import (
 
 // C11 — weighted address selection (db.Wrs).
 //
-//	wrs     <max> <w:draw:fam;...>   fam = 4 | 6 | x ; draws never 0 or 2^32-1 ; property oracle on
-//	wrsedge <max> <w:draw:fam;...>   draws 0 / 2^32-1 allowed ; correspondence only
+//	wrs     <max> <w:draw:fam;...>   fam = 4 | 6 | x ; any weight and any 32-bit draw, 0 and 2^32-1
+//	                                 included ; property oracle on. The draw of a weight-0 candidate is
+//	                                 not fed to the code: Add must not consume a random number for it.
+//	wrsedge <max> <w:draw:fam;...>   synonym of wrs (older corpora)
 //	wrsstat <w,w,...>                chi-square test of proportionality with the process PRNG
 //
 // Output of wrs/wrsedge: 4=<sorted candidate indices|_>/6=<...>/w=<0|1>/e=<#Add errors>, or
@@ -88,7 +90,8 @@ func c11key(c c11cand) float64 {
 	return math.Pow(float64(c.draw)*float64(1.0/math.MaxUint32), 1.0/float64(c.w))
 }
 
-func c11special(c c11cand) bool { return c.draw == 0 || c.draw == c11maxU32 || c.w == 0 }
+// c11special: keys that are exact whatever the pow implementation (Pow(0, y) = 0, Pow(1, y) = 1).
+func c11special(c c11cand) bool { return c.draw == 0 || c.draw == c11maxU32 }
 
 // c11minRel mirrors Driver.C11.minRel.
 func c11minRel(cs []c11cand) float64 {
@@ -98,6 +101,9 @@ func c11minRel(cs []c11cand) float64 {
 			c, d := cs[i], cs[j]
 			if c.fam != d.fam || c.fam == 'x' {
 				continue
+			}
+			if c.w == 0 || d.w == 0 {
+				continue // a weight-0 candidate has no key
 			}
 			if c11special(c) && c11special(d) {
 				continue
@@ -136,10 +142,10 @@ func c11addr(i int, fam byte) []byte {
 
 const c11name = "x.example.org."
 
-func c11wrs(op string, max int, cs []c11cand) (string, string) {
+func c11wrs(max int, cs []c11cand) (string, string) {
 	var draws []uint32
 	for _, c := range cs {
-		if c.fam != 'x' {
+		if c.fam != 'x' && c.w != 0 {
 			draws = append(draws, c.draw)
 		}
 	}
@@ -226,10 +232,10 @@ func c11wrs(op string, max int, cs []c11cand) (string, string) {
 	if bad != "" {
 		return out, bad
 	}
-	if op != "wrs" || out == "near-tie" {
+	if out == "near-tie" {
 		return out, "-"
 	}
-	// property oracle (full strength; the generator keeps draws of this op away from 0 and 2^32-1)
+	// property oracle (full strength: every weight, every draw)
 	m := max
 	if m < 0 {
 		m = 0
@@ -311,7 +317,7 @@ func c11stat(ws []uint32) (string, string) {
 			return "FAIL", "FAIL:record"
 		}
 		if len(rrs) == 0 {
-			empty++ // possible only if the winning draw was 0 (probability 2^-32 per record)
+			empty++ // never: there is a positive weight
 			continue
 		}
 		a := rrs[0].(*dns.A).A
@@ -332,7 +338,7 @@ func c11stat(ws []uint32) (string, string) {
 	}
 	df := npos - 1
 	detail := fmt.Sprintf("chi2=%.3f/df=%d/crit=%.2f/n=%d/empty=%d", chi2, df, c11crit[df], c11statN, empty)
-	if chi2 > c11crit[df] || empty > 2 {
+	if chi2 > c11crit[df] || empty > 0 {
 		return "FAIL", "FAIL:" + detail
 	}
 	return "ok", "ok:" + detail
@@ -349,7 +355,7 @@ func c11run(line string) (string, string) {
 		if err != nil {
 			return "bad-op", "-"
 		}
-		return c11wrs(f[0], max, c11parse(f[2]))
+		return c11wrs(max, c11parse(f[2]))
 	case "wrsstat":
 		if len(f) != 2 {
 			return "bad-op", "-"
@@ -382,7 +388,7 @@ func c11line(w *bufio.Writer, op string, max int, cs []c11cand) {
 func c11gen(g *gen, tier string, w *bufio.Writer) {
 	// 1. exhaustive small: replacement logic incl. exact ties (same weight and draw)
 	exW := []uint32{0, 1, 2}
-	exD := []uint32{1000, 1 << 31, 4000000000}
+	exD := []uint32{0, 1000, 1 << 31, 4000000000, c11maxU32}
 	maxSize := 3
 	if tier == "thorough" {
 		maxSize = 4
@@ -400,8 +406,8 @@ func c11gen(g *gen, tier string, w *bufio.Writer) {
 				cs := make([]c11cand, size)
 				c := code
 				for i := range cs {
-					cs[i] = c11cand{exW[c%3], exD[(c/3)%3], '4'}
-					c /= 9
+					cs[i] = c11cand{exW[c%len(exW)], exD[(c/len(exW))%len(exD)], '4'}
+					c /= len(exW) * len(exD)
 				}
 				if max == 2 && size == 3 {
 					for i := range cs {
@@ -410,6 +416,18 @@ func c11gen(g *gen, tier string, w *bufio.Writer) {
 				}
 				c11line(w, "wrs", max, cs)
 			}
+		}
+	}
+	// 1b. exhaustive pairs over every weight class x the extreme draws and their neighbours
+	edge := []uint32{0, 1, c11maxU32 - 1, c11maxU32}
+	for _, max := range []int{1, 2} {
+		for code := 0; code < 400; code++ {
+			a, b := code%20, code/20
+			cs := []c11cand{{c11weights[a%5], edge[a/5], '4'}, {c11weights[b%5], edge[b/5], '4'}}
+			if max == 1 && code < 20 {
+				c11line(w, "wrs", max, cs[:1])
+			}
+			c11line(w, "wrs", max, cs)
 		}
 	}
 	// 2. random candidate sets
@@ -425,15 +443,10 @@ func c11gen(g *gen, tier string, w *bufio.Writer) {
 			return uint32(c11maxU32 - 1 - uint32(g.intn(1000))) // u close to 1
 		case 2:
 			return []uint32{1 << 31, 1 << 16, 3000000000, 12345}[g.intn(4)] // repeated draws: exact ties
+		case 3:
+			return []uint32{0, c11maxU32}[g.intn(2)] // the extreme draws: keys 0 and 1
 		}
-		d := uint32(g.u64())
-		if d == 0 {
-			d = 1
-		}
-		if d == c11maxU32 {
-			d = c11maxU32 - 1
-		}
-		return d
+		return uint32(g.u64())
 	}
 	for i := 0; i < n; i++ {
 		size := 1 + g.intn(12)
@@ -474,9 +487,8 @@ func c11gen(g *gen, tier string, w *bufio.Writer) {
 		}
 		c11line(w, "wrs", max, cs)
 	}
-	// 3. the extreme draws: u = 0 (key 0 for any weight) and u = 2^32-1 (key 1 even for weight 0)
+	// 3. mostly extreme draws: u = 0 (key 0) and u = 2^32-1 (key 1) on every weight class incl. 0 and 2^32-1
 	ne := n / 6
-	edge := []uint32{0, c11maxU32, 1, c11maxU32 - 1}
 	for i := 0; i < ne; i++ {
 		size := 1 + g.intn(6)
 		max := 1 + g.intn(4)
@@ -493,7 +505,7 @@ func c11gen(g *gen, tier string, w *bufio.Writer) {
 			}
 			cs[j] = c
 		}
-		c11line(w, "wrsedge", max, cs)
+		c11line(w, "wrs", max, cs)
 	}
 	// 4. statistical test of proportionality (labelled test)
 	// (the largest weights crowd the keys u^(1/w) just below 1: the selection must still tell them apart)
